@@ -562,6 +562,31 @@ Proof.
   exact (entry_iff_existence T m Hwf Hd' p).
 Qed.
 
+(* the entries map holds exactly the entries of the document, in order, each under
+   its own key: nothing is dropped or added between EntriesFromRDF and the map *)
+Theorem c02_entries_stored :
+  exists es0,
+    entries_from_rdf F (h_prime (hasher_or Hd cfg)) ds = Ok es0 /\
+    map snd (mz_entries m) =
+      map (wrap_entry (hasher_or Hd cfg) (Some (hasher_or Hd cfg))) es0 /\
+    List.length (leaves (mz_tree m)) = List.length es0.
+Proof.
+  pose proof Hmz as H. unfold merklize_ds, entries_from_rdf_h in H. simpl in H.
+  apply bind_ok in H. destruct H as (es & Hes & Hfrom).
+  apply bind_ok in Hes. destruct Hes as (es0 & Hes0 & Hes). inversion Hes; subst es; clear Hes.
+  exists es0. split; [exact Hes0|].
+  destruct (merklize_from_entries_wf T _ _ _ _ (wrap_entry_uses _ es0) Hfrom) as (Hwf & _ & Hsnd).
+  split; [exact Hsnd|].
+  (* leaves <-> entries: same number *)
+  unfold merklize_from_entries in Hfrom.
+  apply bind_ok in Hfrom. destruct Hfrom as (mp & _ & Hfrom).
+  apply bind_ok in Hfrom. destruct Hfrom as (t & Hmk & Hfrom). inversion Hfrom; subst m; clear Hfrom.
+  simpl. destruct (merklize_entries_spec T _ _ _ _ Hmk) as (kvs & HF & Hadd).
+  destruct (add_list_ok_wf (tp_maxlev T) _ _ _ (wf_E _) Hadd) as (_ & Hperm).
+  rewrite (Permutation_length Hperm). simpl. rewrite app_nil_r, map_length.
+  rewrite <- (forall2_length _ _ _ HF). now rewrite map_length.
+Qed.
+
 (* a Value is returned exactly with an existence proof *)
 Theorem c02_value_iff_existence : forall Hd' p pr ov,
   mz_proof T Hd' m p = Ok (pr, ov) -> (ex pr = true <-> exists v, ov = Some v).
